@@ -193,11 +193,63 @@ def bounds(tier):
 def jobs(tier):
     specs = schema_specs(tier)
     n = 64 if tier == "thorough" else 16
-    return [{"name": "schemas/%02d" % c, "specs": specs[c::n]} for c in range(n) if specs[c::n]] + [{"name": "schemas/include", "specs": INCLUDE_SPECS}, {"name": "schemas/values", "specs": VALUE_SPECS}, {"name": "schemas/empty-sections", "specs": EMPTY_SPECS}]
+    return [{"name": "schemas/%02d" % c, "specs": specs[c::n]} for c in range(n) if specs[c::n]] + [{"name": "schemas/include", "specs": INCLUDE_SPECS}, {"name": "schemas/values", "specs": VALUE_SPECS}, {"name": "schemas/empty-sections", "specs": EMPTY_SPECS}, {"name": "late-declared", "late_declared": True}]
+
+
+def check_late_declared(ctx, only=None):
+    """a dynamic configuration (and a dynamic section) holds ad-hoc values under keys that the schema declares afterwards: the
+    generated options, dotted-path assignment and the override helper all go through the declared field from then on"""
+    import cincoconfig as cc
+    for where in ("root", "section"):
+        for route in ("cmdline", "cmdline-invalid", "dotted", "dotted-invalid", "attr"):
+            ident = [where, route]
+            if only is not None and only != ident:
+                continue
+            s = cc.Schema(dynamic=True)
+            s.pool = cc.Schema(dynamic=True)
+            s.keep = cc.IntField(default=1)
+            cfg = s()
+            cfg.workers = "adhoc"
+            cfg.pool.size = "adhoc-too"
+            s.workers = cc.IntField(min=1, max=16, default=2)
+            s.pool.size = cc.IntField(min=1, max=16, default=3)
+            path = "workers" if where == "root" else "pool.size"
+            opt = "--workers" if where == "root" else "--pool-size"
+            case = {"late_declared": ident, "job": "late-declared"}
+            ctx.transitions += 1
+            try:
+                if route.startswith("cmdline"):
+                    parser = cc.generate_argparse_parser(s, add_help=False)
+                    with contextlib.redirect_stderr(io.StringIO()):
+                        ns = parser.parse_args([opt, "99" if route.endswith("invalid") else "8"])
+                    cc.cmdline_args_override(cfg, ns)
+                elif route.startswith("dotted"):
+                    cfg[path] = "99" if route.endswith("invalid") else "8"
+                else:
+                    setattr(cfg if where == "root" else cfg.pool, path.split(".")[-1], "8")
+                raised = None
+            except BaseException as exc:  # noqa
+                raised = exc
+            got = cfg.workers if where == "root" else cfg.pool.size
+            ctx.case(("late-declared", where, route), "late-declared:%s" % ("raised" if raised else "ok"), True)
+            if route.endswith("invalid"):
+                if raised is None:
+                    ctx.violation("C16|late-declared|%s|%s|accepted" % (where, route), "an out-of-range value was accepted for the declared field %s (now %r)" % (path, got), case)
+            elif raised is not None:
+                ctx.violation("C16|late-declared|%s|%s|raises" % (where, route), "a valid value for %s raised %r" % (path, raised), case)
+            elif got != 8 or type(got) is not int:
+                ctx.violation("C16|late-declared|%s|%s|not-validated" % (where, route), "%s reads %r after the value '8' was given: the declared integer field did not handle it" % (path, got), case)
+    ctx.traces += 1
 
 
 def run_job(job, ctx):
     single = job.get("single")
+    if single and single.get("late_declared"):
+        check_late_declared(ctx, single["late_declared"])
+        return
+    if job.get("late_declared"):
+        check_late_declared(ctx)
+        return
     if single:
         if single.get("growth"):
             check_growth(ctx, single["spec"])
